@@ -2757,7 +2757,12 @@ func (s *Server) serveConnCounted(c net.Conn, countConcurrency bool) error {
 		ctx.Response.Reset()
 
 		if s.stop.Load() == 1 {
+			// Responses to pipelined requests may still be sitting in bw
+			// (they are only flushed when the read buffer is empty).
 			err = nil
+			if bw != nil {
+				err = bw.Flush()
+			}
 			break
 		}
 	}
